@@ -33,6 +33,16 @@ CHECKS = {
     "C08": ("Coq theorems: what a scan attaches below a node depends only on its type and value (scan_node_fresh, under wf_search); the engine equals the fold whose decoding branch attaches the children of "
             "an independent scan of a fresh node with one less depth (scan_node_attaches_fresh_scans); on the annotated tree every decoded node is the reference scan of its own header (deep_ok). "
             "Correspondence + oracle: every decoded node of every result is re-scanned independently on the implementation.", "As C04 (wf_search is genuinely necessary: see C03_out_of_bounds_hangs).", "4 C08"),
+    "C09": ("Coq theorems: the keyword registry is invariant under any permutation of the directory listing at every level (dtree_perm) and under any order / multiplicity of the words of a file "
+            "(set iteration order, i.e. the string-hash seed); build_registry likewise; the scan is a function of (registry, depth, data) up to extensional equality of the registry. The model is tied to "
+            "registry.py by the get_keywords probe run with os.walk reporting shuffled orders. PARTIAL: hidden shared state in CPython / regex / pefile, thread interleavings and process-level hash seeds cannot be "
+            "exhibited by a Gallina model; they are exercised on the implementation (re-used scanner after a history, 8 threads sharing one scanner, subprocesses under several PYTHONHASHSEED values, library and CLI).",
+            "File names within one directory are distinct. Runtime behaviours named above are covered by execution only.", "4 C09"),
+    "C18": ("Coq theorems: get_analyzers selects exactly the decoders of the modules included (or all) and not excluded, as a sub-sequence of the default list; get_keywords yields one searcher per non-empty "
+            "keyword file (any depth of sub-directories), typed by the file name, words = non-blank lines (splitlines characterised), no duplicates, sorted; build_registry splits into a keyword part that depends only on "
+            "the directory and a decoder part that depends only on include/exclude; the translator's table of @decoder-marked functions (from the source text) is the default registry. Correspondence with registry.py on all "
+            "singleton / pair / random selections and generated directories; oracle from the property text.",
+            "pkgutil / inspect / os.walk enumeration are oracles (their sorted order is reproduced by the translator and the model's sorting).", "4 C18"),
     "C17": ("Coq theorems (all keyword lists, all data): find_all terminates and equals the delimiter-filtered greedy left-to-right occurrence list, characterised declaratively (sound, spaced, complete); "
             "hit fields; MixedCase iff. Correspondence (extracted model vs keyword.py on exhaustive small and random inputs) and an independent oracle using the stdlib re module.",
             "Hand-written models of bytes.lower/find/isalnum/isupper/islower and chr().isupper for code points < 256, pinned by probes.", "4 C17"),
